@@ -59,6 +59,10 @@ def shapes(tier):
     out.append({"what": "dispatch"})
     for N in (1, 2, 3, 4):
         out.append({"what": "reads", "N": N})
+    # every contiguous-range request: open ends (None), empty ranges (stop <= start, stop = 0), steps
+    for N in (2, 3):
+        for step in (None, 1, 2):
+            out.append({"what": "slices", "N": N, "step": step})
     # history: the same file name held another table in other units, which was read before
     out.append({"what": "reads", "N": 2, "history": "file_rewritten"})
     return out
@@ -444,6 +448,60 @@ def _run_dispatch(shape, res, sink):
     return ex
 
 
+def _run_slices(shape, res, sink):
+    """read_batch with a slice / (start, stop) tuple: the rows of the table that Python's slice semantics select (start, stop
+    in None, 0..N -- the solver drives both; step per shape), converted to the requested units; empty selections are empty"""
+    from checks import c07
+    S = c07.FullSymUnits(with_api=False)
+    N, step = shape["N"], shape["step"]
+
+    def harness():
+        S.reset()
+        S.make_units()
+        lib, lnp = S.library(N, with_lnp=True)
+        fn = S.as_file(lib, lnp)
+        cs, ce = core.integer("start_code"), core.integer("stop_code")      # -1 stands for None
+        for c in (cs, ce):
+            core.assume(c >= -1)
+            core.assume(c <= N)
+        a = core.fork_int(cs, -1, N)
+        b = core.fork_int(ce, -1, N)
+        a = None if a == -1 else a
+        b = None if b == -1 else b
+        cols = ["P", "ln_prior"]
+        tgt = {"P": units.day}
+        out = {"slice": S.st.utils.read_batch(fn, cols, slice(a, b, step), units=tgt)}
+        if a is not None and b is not None and step is None:
+            out["tuple"] = S.st.utils.read_batch(fn, cols, (a, b), units=tgt)
+        return lib, lnp, a, b, out
+    ex = core.Explorer(max_paths=500)
+    twin = False
+    for path in ex.paths(harness):
+        core.Ctx.cur = path.ctx
+        try:
+            r, _, _ = path.check_isolated(core.SB(z3.BoolVal(False)))
+            twin = twin or r == "sat"
+            if path.raised is not None:
+                sink.check(path, "slices.no_exception", core.SB(z3.BoolVal(False)), site="read_batch", describe=lambda m: {"raised": repr(path.raised)[:200]})
+                continue
+            lib, lnp, a, b, out = path.result
+            L = core.lift
+            rows = list(range(N))[slice(a, b, step)]
+            fP = S._pu.to(units.day)
+            desc = lambda m: {"N": N, "slice": [a, b, step], "expected_rows": rows}
+            for form, got in out.items():
+                ok = isinstance(got, symnp.SymArray) and got.a.shape == (len(rows), 2)
+                cl = [z3.BoolVal(bool(ok))]
+                if ok:
+                    for r_, i in enumerate(rows):
+                        cl += [L(got.a[r_, 0]) == L(lib[i][0] * fP), L(got.a[r_, 1]) == L(lnp[i])]
+                sink.check(path, "slices.%s" % form, core.SB(z3.And(cl)), site="read_batch_slice", describe=desc, isolated=True)
+        finally:
+            core.Ctx.cur = None
+    res["twin_ok"] = twin
+    return ex
+
+
 def _run_reads(shape, res, sink):
     from checks import c07
     S = c07.FullSymUnits(with_api=False)
@@ -530,7 +588,7 @@ def _run_reads(shape, res, sink):
 def run_shape(shape, tier):
     res = new_result(shape)
     sink = VCSink(res, PROPERTY)
-    ex = {"compare": _run_compare, "append": _run_append, "dispatch": _run_dispatch, "reads": _run_reads}[shape["what"]](shape, res, sink)
+    ex = {"compare": _run_compare, "append": _run_append, "dispatch": _run_dispatch, "reads": _run_reads, "slices": _run_slices}[shape["what"]](shape, res, sink)
     fill_explorer(res, ex)
     if shape["what"] in ("append", "reads") or (shape["what"] == "compare" and shape["n1"] == 1):
         res["witnesses"].append({"vc": "witness", "site": "roundtrip", "shape": shape, "model": {}, "witness": True})
@@ -593,7 +651,10 @@ def replay(cand):
         sub["P"] = s["P"]
         other_unit = s.copy()
         other_unit.tbl["K"] = s["K"].to(u.m / u.s)
-        for what, obj in (("a column subset", sub), ("a column in another unit", other_unit)):
+        other_meta = JokerSamples(t_ref=Time(s.t_ref.tcb.mjd + 1.0, format="mjd", scale="tcb"), poly_trend=2, n_offsets=0)
+        for c_ in s.tbl.colnames:
+            other_meta[c_] = s[c_][:5]
+        for what, obj in (("a column subset", sub), ("a column in another unit", other_unit), ("the same columns with conflicting metadata (other t_ref)", other_meta)):
             try:
                 obj.write(fn, append=True)
                 bad.append("appending %s was accepted" % what)
@@ -623,6 +684,19 @@ def replay(cand):
         full = np.stack([s["s"].to_value(u.km / u.s), s["P"].to_value(u.year)], axis=1)
         if not np.allclose(read_batch(fn, cols, (2, 5), units=tgt), full[2:5], rtol=1e-13):
             bad.append("read_batch(range) returns other rows / units")
+        # every way of asking for a contiguous range: open ends, empty ranges, steps
+        nfull = len(full)
+        for a_ in (None, 0, 1, 3, nfull):
+            for b_ in (None, 0, 2, nfull):
+                for st_ in (None, 1, 2):
+                    got_ = np.asarray(read_batch(fn, cols, slice(a_, b_, st_), units=tgt))
+                    exp_ = full[slice(a_, b_, st_)]
+                    if got_.shape[0] != exp_.shape[0] or (len(exp_) and not np.allclose(got_, exp_, rtol=1e-13)):
+                        bad.append("read_batch(slice(%r, %r, %r)) returns %d rows, the range selects %d" % (a_, b_, st_, got_.shape[0], exp_.shape[0]))
+                if a_ is not None and b_ is not None:
+                    got_ = np.asarray(read_batch(fn, cols, (a_, b_), units=tgt))
+                    if got_.shape[0] != len(full[a_:b_]):
+                        bad.append("read_batch((%r, %r)) returns %d rows, the range selects %d" % (a_, b_, got_.shape[0], len(full[a_:b_])))
         idx = np.array([5, 0, 3])
         if not np.allclose(read_batch(fn, cols, idx, units=tgt), full[idx], rtol=1e-13):
             bad.append("read_batch(index array) does not return the rows in the given order")
